@@ -89,6 +89,8 @@ class Check:
             pass
         except FileNotFoundError:
             pass
+        except Exception as ex:       # an evidence file that does not validate is a machinery failure, reported with the others below
+            self.machinery.append('evidence file does not validate: %s' % str(ex).splitlines()[0])
         for l in lines:
             print(l)
         print('%s tier=%s seed=%s states=%d replayed/validated=%d evaluations=%d nontrivial=%d violations=%d known=%d wall=%.1fs' % (
